@@ -22,6 +22,7 @@ necessary to account for:
     may also differ.
 """
 
+from copy import copy
 from math import pi
 
 from tangelo.toolboxes.operators import QubitOperator
@@ -93,6 +94,7 @@ def translate_c_to_cirq(source_circuit, noise_model=None, save_measurements=Fals
 
     # Maps the gate information properly. Different for each backend (order, values)
     for gate in source_circuit._gates:
+        gate = copy(gate)  # the source circuit is only read: renaming below must not reach it
         if gate.control is not None:
             num_controls = len(gate.control)
             control_list = [qubit_list[c] for c in gate.control]
